@@ -361,7 +361,7 @@ def _command_level(cs):
 
     tree = world.gen_tree(rng, max_files=8, max_dirs=4)
     d = cs.dir()
-    root = os.path.join(d, "R" + world.gen_name(rng, rng.choice(["plain", "uni", "space"]), ext=False))
+    root = os.path.join(d, world.root_name(rng))
     world.write_tree(root, tree)
     os.makedirs(root, exist_ok=True)
     subdirs = [k for k, v in tree.items() if v is None]
